@@ -555,7 +555,7 @@ def compare(an, s, rows, base, other, xf, el):
         if degenerate:
             return ZERO_SCATTER_KEY
         if runaway:
-            return "C18/%s/TS-runaway" % an
+            return _llkey("C18/%s/TS-runaway" % an, s, xf)
         return "%s/%s" % (prefix, p)
 
     viol = []
@@ -591,11 +591,11 @@ def compare(an, s, rows, base, other, xf, el):
         lb, lo = logl(b), logl(o)
     if math.isfinite(lb) and math.isfinite(lo):
         if abs(lb - lo) > DLL:
-            return [(_llkey(prefix), {"logL_base": lb, "logL_transformed_mapped_back": lo,
+            return [(_llkey(prefix, s, xf), {"logL_base": lb, "logL_transformed_mapped_back": lo,
                                                   "base": b, "transformed_mapped_back": o})], cnt
         cnt.append("maxlike/logL-compared/%s" % an)
     elif math.isfinite(lb) != math.isfinite(lo):
-        return [(_llkey(prefix), {"logL_base": lb, "logL_transformed_mapped_back": lo,
+        return [(_llkey(prefix, s, xf), {"logL_base": lb, "logL_transformed_mapped_back": lo,
                                               "base": b, "transformed_mapped_back": o})], cnt
     else:
         cnt.append("maxlike/logL-not-finite-on-both-sides/%s" % an)
@@ -628,8 +628,17 @@ def compare(an, s, rows, base, other, xf, el):
     return viol, cnt
 
 
-def _llkey(prefix):
-    return prefix if prefix.endswith("/TS-runaway") else prefix + "/log-likelihood"
+def _stag(s, xf):
+    """names the input (series and transformation): optimiser findings are recorded per input, not per clause"""
+    t = "k%g-%s-r%d-j%s-%s" % (s["k"], "+".join("%g" % v for v in s["levels"]), s["reps"], s["jit"], s["ro"])
+    if xf is None:
+        return t
+    return t + "/" + ("%s*%g" % (xf[0], xf[1]) if xf[0] in ("load", "cycles") else xf[0])
+
+
+def _llkey(prefix, s=None, xf=None):
+    key = prefix if prefix.endswith("/TS-runaway") else prefix + "/log-likelihood"
+    return key + "/" + _stag(s, xf) if s is not None and key.startswith("C18/MaxLikeFull/") else key
 
 
 def _flat(logl, b, p, lb):
